@@ -67,6 +67,11 @@ def every_job_is_accounted_for(ctx):
     runs = [c for c in own_calls(f.node) if (dotted(c.func) or '') == 'self._run_get_object_job']
     ok = len(runs) == 1 and norm(runs[0].args[0]) == jn and q.guards_imply(q.guards(runs[0]), f'not self._transfer_monitor.get_exception({jn}.transfer_id)')
     ctx.ob(f, 'job skipped when the transfer already has an exception', ok, 'a failed/cancelled download must stop fetching')
+    # ... and it is counted when its work is over: from the count no path leads back into the job's own work within the iteration
+    rn = [x for c in runs for x in g.nodes_of(c)]
+    ok = bool(nn) and bool(rn) and not (g.reach(nn, avoid=heads, labels=g.NORMAL) & set(rn))
+    ctx.ob(f, 'a job is counted as complete only after it ran (or was skipped)', ok,
+           'counted on pick-up, the last job to be picked up finalises the download while earlier jobs are still writing: the file is published incomplete and done is signalled early')
     rets = [x for x in own_nodes(f.node) if isinstance(x, ast.Return)]
     ok = len(rets) == 1 and q.guards_imply(q.guards(rets[0]), f'{jn} == SHUTDOWN_SIGNAL')
     ctx.ob(f, 'the loop ends only on the shutdown signal', ok, 'workers must keep serving until told to stop')
@@ -131,7 +136,7 @@ def submitter_failures_in_order(ctx):
     ctx.ob(f, 'submitter stops only on the shutdown signal', len(rets) == 1 and q.guards_imply(q.guards(rets[0]), f'{rq} == SHUTDOWN_SIGNAL'), 'submitter loop exit changed')
 
 
-@rule('C19.f', ['C19'], floor=8)
+@rule('C19.f', ['C19', 'C10'], floor=8)
 def cancel_and_shutdown(ctx):
     """cancel() and Ctrl-C go through notify_exception / notify_cancel_all_in_progress
     (which skips finished transfers); shutdown joins submitter, then workers, then the
@@ -188,6 +193,12 @@ def cancel_and_shutdown(ctx):
     ctx.ob(f.qualname, '_shutdown: signal + join submitter -> one SHUTDOWN_SIGNAL per worker -> join every worker -> monitor manager', ok,
            f'found {[(n, len(ev.get(n, []))) for n in names]}: shutdown must wait until every queued download request was submitted, a worker without a signal never '
            'exits (shutdown hangs), an unjoined worker may still be writing, and the manager hosts the monitor the workers still talk to', node=f.node)
+    f = ctx.func('processpool.ProcessPoolDownloader._start_if_needed')
+    cs = [c for c in own_calls(f.node) if (dotted(c.func) or '') == 'self._start']
+    ok = len(cs) == 1 and 'self._start_lock' in q.locks_held(cs[0]) and q.guards_imply(q.guards_under_lock(cs[0], 'self._start_lock'), 'not self._started')
+    ctx.ob(f, 'start only when not started, decided under the start lock', ok,
+           'a second caller that tests the flag outside the lock (or not again inside it) starts a second set of workers: twice max_request_processes requests in flight, '
+           'and two monitors')
     f = ctx.func('processpool.ProcessPoolDownloader._shutdown_if_needed')
     cs = [c for c in own_calls(f.node) if (dotted(c.func) or '') == 'self._shutdown']
     ctx.ob(f, 'shutdown only when started, under the start lock', len(cs) == 1 and q.guards_imply(q.guards(cs[0]), 'self._started') and 'self._start_lock' in q.locks_held(cs[0]), 'shutdown()/start race')
